@@ -15,7 +15,7 @@ class Spec(CheckSpec):
     rule = (
         "one evaluation = one bench run on a generated topology (plain LAN; one router with 2-3 subnets; two routers in "
         "line with static, default, mixed or overlapping route tables, including default routes that point at each "
-        "other; firewall with DMZ; /24 and /28 masks; now and then a host whose default gateway is another host): 70-140 "
+        "other; firewall with DMZ; two wireless routers joined over the air; /24 and /28 masks; now and then a host whose default gateway is another host): 70-140 "
         "seeded ops - pings (1-4 echo requests) and database connections between ordered host pairs, pings to addresses "
         "nobody owns, routes added through the public route-table API (prefix lengths 8-32 around a host, metrics 0/1/5, "
         "right and wrong next hops), an exhaustive sweep of all ordered triples of a 10-route family on a scratch table, "
@@ -28,7 +28,7 @@ class Spec(CheckSpec):
     assumptions = [
         "the reference walk models standard IP forwarding; where it finds no path, nothing is asserted about failure except delivery without any route",
         "ping success is required with pings=1..4 in whatever cache state the history has produced (cold after construction / power cycles, warm afterwards)",
-        "wireless routers are not part of this check's topologies (their forwarding is exercised in C18/C01 runs)",
+        "air capacities are left unlimited in this check (a saturated frequency legitimately drops frames; that is C18's subject)",
     ]
     required_probes = ["c08_ping_across_router_expected", "c08_route_choice_among_3plus", "c08_default_route_used", "c08_stray_packet", "c08_forwarded_frame_ttl_checked", "c08_unicast_handed_to_software", "c08_route_tables_swept"]
 
